@@ -253,6 +253,27 @@ class Check:
         return 1 if self.violations else 0
 
 
+def apalache_inductive(check, module, what):
+    """Apalache: Init => IndInv (length 0) and IndInv /\\ Next => IndInv' (length 1) for the wrapper `module`"""
+    import shutil
+    import subprocess
+    out = tempfile.mkdtemp(prefix='usimverif-apa-')
+    try:
+        for name, args in (('base', ['--init=Init', '--inv=IndInv', '--length=0']),
+                           ('step', ['--init=IndInit', '--inv=IndInv', '--length=1'])):
+            t0 = time.time()
+            p = subprocess.run(['apalache-mc', 'check', '--out-dir=' + out] + args + [module + '.tla'], cwd=tlc.SPEC_DIR,
+                               stdout=subprocess.PIPE, stderr=subprocess.STDOUT, text=True, timeout=1200)
+            ok = p.returncode == 0 and 'The outcome is: NoError' in p.stdout
+            check.tlc_runs.append({'label': 'apalache_inductive_' + name, 'module': module, 'tool': 'apalache-mc',
+                                   'args': args, 'outcome': 'NoError' if ok else 'Error', 'wall_s': round(time.time() - t0, 1)})
+            if not ok:
+                raise MachineryError('Apalache: IndInv of %s is not inductive (%s): %s' % (what, name, p.stdout[-600:]))
+    finally:
+        shutil.rmtree(out, ignore_errors=True)
+        shutil.rmtree(os.path.join(tlc.SPEC_DIR, '_apalache-out'), ignore_errors=True)
+
+
 def _match(m, program, trace, pos):
     """known-finding matcher: every key of `m` must hold for the rejected trace"""
     text = json.dumps(program, sort_keys=True, default=str)
